@@ -39,13 +39,19 @@ add('C10', 'model_checking',
     "symbolic execution of both _get_op_scope copies on z3 String names; z3 sequence theory decides equality",
     'DESIGN.md 3/C10')
 
+add('C16', 'model_checking',
+    "The real _process_constant_map and _serialize_large_model run with SYMBOLIC buffer lengths and flatbuffer length (module-level len and the serializer rebound); every path of the 16-way padding loops is explored and z3 (linear integer arithmetic) decides for all lengths that every external buffer's offset is 16-byte aligned, in bounds, beyond the flatbuffer, disjoint from the others and selects exactly that buffer's bytes, that data-less and empty buffers are serialised as in the ordinary path, and that no offset/size scalar changes default-ness between the two passes (the condition under which the FlatBuffers builder produces equal lengths). The builder assumption itself is validated with the real builder by pushing synthetic and fixture models through the real public path with the threshold hook and diffing large vs ordinary form.",
+    "Assumes: final serialisation length == dummy length when no scalar changes default-ness (validated concretely, not proved: FlatBuffers builder is C-like library code outside the encoding); <=2 buffers quick / <=3 thorough (any subset without data), arbitrary lengths. Interpreter loading both forms is FFI and outside the claim. Uses hook commit 5d5c148 (AI_EDGE_QUANTIZER_VERIF=1 + AI_EDGE_QUANTIZER_VERIF_LARGE_MODEL_THRESHOLD) for the concrete part and replays.",
+    "path-exhaustive symbolic execution with symbolic lengths (SymInt) + z3 QF_LIA; differential run of the real serializer via the threshold hook",
+    'DESIGN.md 3/C16')
+
 def write():
   m = {
    'version': 1,
    'setup_cmd': './setup.sh',
    'hooks': {'guard': 'AI_EDGE_QUANTIZER_VERIF',
-             'enable': 'no hook commits in /repo: checks rebind module globals of the imported /repo modules in-process (symx/patch.py); /repo is imported from its working tree on every run',
-             'baseline_off_cmd': BASE_OFF, 'source_commits': [], 'add_only': True},
+             'enable': 'checks import /repo from its working tree on every run and rebind module globals in-process (symx/patch.py); the single source hook (large-model threshold, C16) is enabled by the check itself setting AI_EDGE_QUANTIZER_VERIF=1 and AI_EDGE_QUANTIZER_VERIF_LARGE_MODEL_THRESHOLD in its own process',
+             'baseline_off_cmd': BASE_OFF, 'source_commits': ['5d5c148'], 'add_only': True},
    'engines': [{'name': 'symx', 'path': '/verif/symx', 'serves_properties': sorted(CHECKS),
                 'kind_free_text': 'own dynamic symbolic executor on z3 (DFS over branch decisions with re-execution) + symbolic NumPy shim with BITS/UF/RERR element back ends; runs the unmodified /repo functions'}],
    'checks': [CHECKS[k] for k in sorted(CHECKS)],
